@@ -135,7 +135,7 @@ func c08observe(rep *lib.Report, base *c08base, w *World, model map[string]int, 
 				rep.Violate("C08|get-deleted-or-unset-label-succeeds", fmt.Sprintf("%s: label %s/%s resolves to %q", desc, r, l, got), h)
 			}
 		}
-		for _, pfx := range []string{"", "x", "v"} {
+		for _, pfx := range []string{"", "x", "v", ".", ".."} {
 			var want []string
 			for _, l := range c08labels {
 				if b, ok := model[r+"|"+l]; ok && strings.HasPrefix(l, pfx) {
@@ -162,7 +162,7 @@ func c08observe(rep *lib.Report, base *c08base, w *World, model map[string]int, 
 func TestC08(t *testing.T) {
 	rep := lib.NewReport("C08", "model_checking")
 	defer rep.Finish(t)
-	rep.Rule = "BFS over all histories of set(r,l,b) with a fresh Label object / move(r,l,B2) with a Label object that fetched the current descriptor first / delete(r,l), r in {a,ab}, l in {x,x-y,v1.0.0}, b in {B1,B2}, de-duplicated on (label map of the model, labels really in the store), to the fixed point (3^6 states); each state rebuilt on a fresh clone of the real stores; after every step: get of every (r,l), ListLabels with prefixes {'',x,v} x page sizes 1..4, and the write journal (exactly one key written, under labels/<r>/<l>/; bundles and other labels untouched); name acceptance: every string of length <=2 over {a,7,-,_,.,/,space,é,#} + hostile names: if the API accepts the name, get must resolve it and listing must return it together with the other labels; label listings (page size 2, with and without prefix) under every single transient fault at each metadata call: an error or exactly the live labels; distinct = distinct label maps / names"
+	rep.Rule = "BFS over all histories of set(r,l,b) with a fresh Label object / move(r,l,B2) with a Label object that fetched the current descriptor first / delete(r,l), r in {a,ab}, l in {x,x-y,v1.0.0}, b in {B1,B2}, de-duplicated on (label map of the model, labels really in the store), to the fixed point (3^6 states); each state rebuilt on a fresh clone of the real stores; after every step: get of every (r,l), ListLabels with prefixes {'',x,v,'.','..'} x page sizes 1..4, and the write journal (exactly one key written, under labels/<r>/<l>/; bundles and other labels untouched); name acceptance: every string of length <=2 over {a,7,-,_,.,/,space,é,#} + hostile names: if the API accepts the name, get must resolve it and listing must return it together with the other labels; label listings (page size 2, with and without prefix) under every single transient fault at each metadata call: an error or exactly the live labels; distinct = distinct label maps / names"
 	base := c08mkbase()
 	var alphabet []c08op
 	for _, r := range c08repos {
